@@ -2,6 +2,6 @@
    option, list, prod, unit, sumbool map to OCaml's own; nat, positive, N, Z stay
    the extracted inductive types.  No Extract Constant. *)
 From Coq Require Import Extraction ExtrOcamlBasic NArith ZArith List.
-From AHK Require Import Lib.Res Lib.ByteStr Model.Tlv.
+From AHK Require Import Lib.Res Lib.ByteStr Model.Tlv Model.TlvObj.
 Separate Extraction Z.of_N Z.to_N N.of_nat N.to_nat
-  tlv_encode tlv_decode_exp tlv_spec_encode tlv_reassemble.
+  tlv_encode tlv_decode_exp tlv_spec_encode tlv_reassemble tlv_obj_run.
